@@ -76,14 +76,20 @@ func vhNewCron(limit int) *Cron {
 
 // VH_C16_schedule: schedule a job (new id or replacing an existing one) into an arbitrary
 // valid timeline.
-func VH_C16_schedule(n int) {
+func VH_C16_schedule(n int) { vhC16Schedule(n, true) }
+
+// VH_C16_reschedule: the same step as the firing loop takes it for a recurring job
+// (schedule without the capacity check).
+func VH_C16_reschedule(n int) { vhC16Schedule(n, false) }
+
+func vhC16Schedule(n int, checkLimit bool) {
 	c := vhNewCron(10)
 	ids, nexts := vhTimeline(c, n)
 	ctx := core.NewContext("c16")
 	id := vsymStrN("newid", 3)
 	next := vsymInt64("newnext", vhBase, vhBase+1000000)
 	job := &CronJob{Id: id, Next: time.Unix(0, next)}
-	err := c.schedule(ctx, job, true)
+	err := c.schedule(ctx, job, checkLimit)
 	vassert(err == nil, "schedule-succeeds-under-limit")
 	vassert(vhSorted(c), "timeline-sorted")
 	vassert(vhUniqueIds(c), "at-most-one-entry-per-id")
